@@ -350,7 +350,12 @@ def filter_args(func, ignore_lst, args=(), kwargs=dict()):
 
 
 def _format_arg(arg):
-    formatted_arg = pformat(arg, indent=2)
+    try:
+        formatted_arg = pformat(arg, indent=2)
+    except Exception:
+        # The __repr__ of an argument may raise: this must not make the
+        # call that is being displayed fail.
+        formatted_arg = object.__repr__(arg)
     if len(formatted_arg) > 1500:
         formatted_arg = "%s..." % formatted_arg[:700]
     return formatted_arg
